@@ -854,4 +854,327 @@ theorem indexStrings_not_lit (fuel : Nat) (v : PV) (acc : List Str) (hv : ∀ l,
     | lit l => exact absurd rfl (hv l)
     | _ => simp [indexStrings]
 
+/-! ### the variable map stays a sorted map: every entry is visible to `get?` -/
+section Sorted
+open AMap
+
+theorem char_eq_of_toNat {a b : Char} (h : a.toNat = b.toNat) : a = b := by
+  apply Char.ext
+  apply UInt32.toNat_inj.mp
+  exact h
+
+theorem strLt_irrefl : ∀ a : Str, strLt a a = false
+  | [] => rfl
+  | c :: cs => by simp [strLt, strLt_irrefl cs]
+
+theorem strLt_trans : ∀ a b c : Str, strLt a b = true → strLt b c = true → strLt a c = true
+  | [], [], _, h, _ => by simp [strLt] at h
+  | [], _ :: _, [], _, h => by simp [strLt] at h
+  | [], _ :: _, _ :: _, _, _ => rfl
+  | _ :: _, [], _, h, _ => by simp [strLt] at h
+  | _ :: _, _ :: _, [], _, h => by simp [strLt] at h
+  | x :: xs, y :: ys, z :: zs, h1, h2 => by
+    simp only [strLt] at h1 h2 ⊢
+    have ih := strLt_trans xs ys zs
+    split at h1
+    · split at h2
+      · rw [if_pos (by omega)]
+      · split at h2
+        · cases h2
+        · rw [if_pos (by omega)]
+    · split at h1
+      · cases h1
+      · split at h2
+        · rw [if_pos (by omega)]
+        · split at h2
+          · cases h2
+          · rw [if_neg (by omega), if_neg (by omega)]; exact ih h1 h2
+
+theorem strLt_total : ∀ a b : Str, a ≠ b → strLt a b = false → strLt b a = true
+  | [], [], h, _ => absurd rfl h
+  | [], _ :: _, _, h => by simp [strLt] at h
+  | _ :: _, [], _, _ => rfl
+  | x :: xs, y :: ys, hne, h => by
+    simp only [strLt] at h ⊢
+    split at h
+    · cases h
+    · split at h
+      · rw [if_pos (by omega)]
+      · have : x = y := char_eq_of_toNat (by omega)
+        subst this
+        rw [if_neg (by omega), if_neg (by omega)]
+        exact strLt_total xs ys (fun e => hne (by rw [e])) h
+
+/-- keys strictly increasing (the `BTreeMap` invariant) -/
+def Sorted {α} (m : List (Str × α)) : Prop := m.Pairwise (fun p q => strLt p.1 q.1 = true)
+
+theorem mem_insert' {α} (k : Str) (v : α) : ∀ (m : List (Str × α)) (q : Str × α),
+    q ∈ AMap.insert' k v m → q = (k, v) ∨ q ∈ m
+  | [], q, h => by simp [AMap.insert', AMap.insert] at h; exact Or.inl h
+  | (k', v') :: rest, q, h => by
+    rw [insert'_cons] at h
+    split at h
+    · rcases List.mem_cons.mp h with h | h
+      · exact Or.inl h
+      · exact Or.inr (List.mem_cons_of_mem _ h)
+    · split at h
+      · rcases List.mem_cons.mp h with h | h
+        · exact Or.inl h
+        · exact Or.inr h
+      · rcases List.mem_cons.mp h with h | h
+        · exact Or.inr (h ▸ List.mem_cons_self)
+        · rcases mem_insert' k v rest q h with h | h
+          · exact Or.inl h
+          · exact Or.inr (List.mem_cons_of_mem _ h)
+
+theorem sorted_insert' {α} (k : Str) (v : α) : ∀ (m : List (Str × α)), Sorted m → Sorted (AMap.insert' k v m)
+  | [], _ => by simp [AMap.insert', AMap.insert, Sorted]
+  | (k', v') :: rest, h => by
+    unfold Sorted at h ⊢
+    rw [List.pairwise_cons] at h
+    rw [insert'_cons]
+    split
+    · rename_i he
+      have he : k' = k := by simpa using he
+      subst he
+      exact List.pairwise_cons.mpr ⟨h.1, h.2⟩
+    · rename_i hne
+      have hne : k' ≠ k := by simpa using hne
+      split
+      · rename_i hlt
+        refine List.pairwise_cons.mpr ⟨?_, List.pairwise_cons.mpr h⟩
+        intro q hq
+        rcases List.mem_cons.mp hq with rfl | hq
+        · exact hlt
+        · exact strLt_trans _ _ _ hlt (h.1 q hq)
+      · rename_i hnlt
+        have hnlt : strLt k k' = false := by simpa using hnlt
+        refine List.pairwise_cons.mpr ⟨?_, sorted_insert' k v rest h.2⟩
+        intro q hq
+        rcases mem_insert' k v rest q hq with rfl | hq
+        · exact strLt_total k k' (fun e => hne e.symm) hnlt
+        · exact h.1 q hq
+
+theorem get?_of_mem_sorted {α} : ∀ (m : List (Str × α)), Sorted m → ∀ p ∈ m, AMap.get? p.1 m = some p.2
+  | [], _, p, hp => by cases hp
+  | (k', v') :: rest, h, p, hp => by
+    unfold Sorted at h
+    rw [List.pairwise_cons] at h
+    rcases List.mem_cons.mp hp with rfl | hp
+    · simp [AMap.get?]
+    · have hlt := h.1 p hp
+      have : k' ≠ p.1 := by
+        intro e; rw [e, strLt_irrefl] at hlt; cases hlt
+      rw [get?_cons]
+      simp only [beq_iff_eq, this, if_false]
+      exact get?_of_mem_sorted rest h.2 p hp
+
+theorem mem_of_get? {α} {k : Str} {v : α} : ∀ {m : List (Str × α)}, AMap.get? k m = some v → (k, v) ∈ m
+  | [], h => by simp [AMap.get?] at h
+  | (k', v') :: rest, h => by
+    rw [get?_cons] at h
+    split at h
+    · rename_i he
+      have he : k' = k := by simpa using he
+      cases h; subst he; exact List.mem_cons_self
+    · exact List.mem_cons_of_mem _ (mem_of_get? h)
+
+theorem step_sorted {K K' : IKeys} {e : Ev} (h : step K e = .ok K') (hs : Sorted K.vars) : Sorted K'.vars := by
+  cases e with
+  | var k f => simp only [step, Res.ok.injEq] at h; subst h; exact sorted_insert' _ _ _ hs
+  | comp k =>
+    simp only [step, Res.ok.injEq] at h; subst h
+    unfold pushComp; split <;> exact hs
+  | count k ty => obtain ⟨rfl, _⟩ := pushCount_ok h; exact sorted_insert' _ _ _ hs
+
+theorem run_sorted : ∀ (es : List Ev) (k k' : IOL), run es k = .ok k' → Sorted k.keysMut.vars → Sorted k'.keysMut.vars := by
+  intro es
+  induction es with
+  | nil => intro k k' h hs; simp only [run, Res.ok.injEq] at h; subst h; exact hs
+  | cons e es ih =>
+    intro k k' h hs
+    rw [run] at h
+    cases hst : step k.keysMut e with
+    | ok K => rw [hst] at h; exact ih _ _ h (step_sorted hst hs)
+    | err e => rw [hst] at h; cases h
+    | panic p => rw [hst] at h; cases h
+end Sorted
+
+section ReduceNormal
+open I18nVerif.Reduce
+
+/-! ### the values `reduce` returns are `normal` -/
+
+def isOccNode : PV → Bool
+  | .var _ _ => true
+  | .comp _ _ => true
+  | .ranges _ _ _ => true
+  | .plurals _ _ _ _ => true
+  | _ => false
+
+def isLitNode : PV → Bool
+  | .lit _ => true
+  | _ => false
+
+theorem noOcc_of_isOccNode {x : PV} (h : isOccNode x = true) : noOcc x = false := by
+  cases x <;> simp [isOccNode] at h <;> simp [noOcc, occVars, occComps, occCounts]
+
+theorem noOcc_bloc_of_mem {l : List PV} {x : PV} (hm : x ∈ l) (h : noOcc x = false) : noOcc (.bloc l) = false := by
+  induction l with
+  | nil => cases hm
+  | cons y ys ih =>
+    rcases List.mem_cons.mp hm with rfl | hm
+    · simp only [noOcc, occVars, occComps, occCounts, occVarsL, occCompsL, occCountsL] at h ⊢
+      cases h1 : occVars x <;> cases h2 : occComps x <;> cases h3 : occCounts x <;> simp_all
+    · have := ih hm
+      simp only [noOcc, occVars, occComps, occCounts, occVarsL, occCompsL, occCountsL] at this ⊢
+      cases h1 : occVarsL ys <;> cases h2 : occCompsL ys <;> cases h3 : occCountsL ys <;> simp_all
+
+/-- invariant of the accumulator of `reduce_into`: literals and nodes that use something; with two
+    items or more, at least one uses something -/
+def AccInv (acc : List PV) : Prop :=
+  (∀ x ∈ acc, isLitNode x = true ∨ isOccNode x = true) ∧ (2 ≤ acc.length → ∃ x ∈ acc, isOccNode x = true)
+
+theorem dropLast_append_of_getLast? {α} {l : List α} {x : α} (h : l.getLast? = some x) :
+    l.dropLast ++ [x] = l := by
+  have hne : l ≠ [] := by intro e; subst e; simp at h
+  have := List.dropLast_concat_getLast hne
+  rw [List.getLast?_eq_some_getLast hne] at h
+  simp at h
+  rw [h] at this
+  exact this
+
+theorem AccInv.nil : AccInv [] := ⟨by simp, by simp⟩
+
+theorem AccInv.push_occ {acc : List PV} {x : PV} (h : AccInv acc) (hx : isOccNode x = true) : AccInv (acc ++ [x]) := by
+  refine ⟨?_, fun _ => ⟨x, by simp, hx⟩⟩
+  intro y hy
+  rcases List.mem_append.mp hy with hy | hy
+  · exact h.1 y hy
+  · simp at hy; subst hy; exact Or.inr hx
+
+theorem AccInv.pushLit {acc : List PV} (l : Lit) (h : AccInv acc) : AccInv (pushLit l acc) := by
+  unfold Reduce.pushLit
+  have app : (∀ x, acc.getLast? = some x → isOccNode x = true) → AccInv (acc ++ [.lit l]) := by
+    intro hlast
+    refine ⟨?_, ?_⟩
+    · intro y hy
+      rcases List.mem_append.mp hy with hy | hy
+      · exact h.1 y hy
+      · simp at hy; subst hy; exact Or.inl rfl
+    · intro hlen
+      cases hg : acc.getLast? with
+      | none =>
+        have : acc = [] := List.getLast?_eq_none_iff.mp hg
+        subst this; simp at hlen
+      | some x =>
+        exact ⟨x, List.mem_append_left _ (List.mem_of_getLast? hg), hlast x hg⟩
+  cases hg : acc.getLast? with
+  | none => exact app (by simp [hg])
+  | some x =>
+    have hx := h.1 x (List.mem_of_getLast? hg)
+    cases x with
+    | lit last =>
+      simp only
+      have hsplit : acc.dropLast ++ [.lit last] = acc := dropLast_append_of_getLast? hg
+      refine ⟨?_, ?_⟩
+      · intro y hy
+        rcases List.mem_append.mp hy with hy | hy
+        · exact h.1 y (List.dropLast_subset _ hy)
+        · simp at hy; subst hy; exact Or.inl rfl
+      · intro hlen
+        have hlen' : 2 ≤ acc.length := by
+          rw [← hsplit]; simpa using hlen
+        obtain ⟨y, hy, hyo⟩ := h.2 hlen'
+        rw [← hsplit] at hy
+        rcases List.mem_append.mp hy with hy | hy
+        · exact ⟨y, List.mem_append_left _ hy, hyo⟩
+        · simp at hy; subst hy; simp [isOccNode] at hyo
+    | _ =>
+      simp only
+      apply app
+      intro y hy
+      rw [hg] at hy; cases hy
+      simpa [isLitNode] using hx
+
+mutual
+theorem reduce_normal : ∀ (v v' : PV), reduce v = .ok v' → normal v' = true
+  | .lit l, v', h => by simp only [reduce, Res.ok.injEq] at h; subst h; rfl
+  | .var k f, v', h => by simp only [reduce, Res.ok.injEq] at h; subst h; simp [normal, noOcc, occVars]
+  | .dflt, v', h => by simp only [reduce, Res.ok.injEq] at h; subst h; rfl
+  | .fk (.set inner), v', h => by rw [reduce] at h; exact reduce_normal inner v' h
+  | .fk (.notSet _ _), v', h => by simp [reduce] at h
+  | .ranges ck t bs, v', h => by
+    rw [reduce] at h
+    split at h <;> simp only [Res.ok.injEq, reduceCtorEq] at h
+    subst h; simp [normal, noOcc, occCounts]
+  | .comp k inner, v', h => by
+    rw [reduce] at h
+    split at h <;> simp only [Res.ok.injEq, reduceCtorEq] at h
+    subst h; simp [normal, noOcc, occComps]
+  | .subkeys (some (.mk n t keys s c)), v', h => by
+    rw [reduce] at h
+    split at h <;> simp only [Res.ok.injEq, reduceCtorEq] at h
+    subst h; rfl
+  | .subkeys none, v', h => by simp [reduce] at h
+  | .plurals r ck other forms, v', h => by
+    rw [reduce] at h
+    split at h <;> simp only [Res.ok.injEq, reduceCtorEq] at h
+    subst h; simp [normal, noOcc, occCounts]
+  | .bloc items, v', h => by
+    rw [reduce] at h
+    split at h <;> simp only [Res.ok.injEq, reduceCtorEq] at h
+    rename_i acc hacc
+    subst h
+    have inv := reduceIntoL_inv items [] acc AccInv.nil hacc
+    match acc, inv with
+    | [], _ => rfl
+    | [one], inv =>
+      simp only [wrapBloc]
+      rcases inv.1 one (by simp) with h | h
+      · cases one <;> simp [isLitNode] at h; rfl
+      · cases one <;> simp [isOccNode] at h <;> simp [normal, noOcc, occVars, occComps, occCounts]
+    | a :: b :: rest, inv =>
+      simp only [wrapBloc]
+      obtain ⟨x, hx, hxo⟩ := inv.2 (by simp)
+      have := noOcc_bloc_of_mem hx (noOcc_of_isOccNode hxo)
+      simp [normal, this]
+theorem reduceInto_inv : ∀ (v : PV) (acc acc' : List PV), AccInv acc → reduceInto v acc = .ok acc' → AccInv acc'
+  | .dflt, acc, acc', hi, h => by simp only [reduceInto, Res.ok.injEq] at h; subst h; exact hi
+  | .subkeys _, acc, acc', hi, h => by simp only [reduceInto, Res.ok.injEq] at h; subst h; exact hi
+  | .ranges ck t bs, acc, acc', hi, h => by
+    rw [reduceInto] at h
+    split at h <;> simp only [Res.ok.injEq, reduceCtorEq] at h
+    subst h; exact hi.push_occ rfl
+  | .plurals r ck other forms, acc, acc', hi, h => by
+    rw [reduceInto] at h
+    split at h <;> simp only [Res.ok.injEq, reduceCtorEq] at h
+    subst h; exact hi.push_occ rfl
+  | .fk (.set inner), acc, acc', hi, h => by rw [reduceInto] at h; exact reduceInto_inv inner acc acc' hi h
+  | .fk (.notSet _ _), acc, acc', hi, h => by simp [reduceInto] at h
+  | .lit l, acc, acc', hi, h => by
+    rw [reduceInto] at h
+    split at h <;> simp only [Res.ok.injEq] at h <;> subst h
+    · exact hi
+    · exact hi.pushLit l
+  | .var k f, acc, acc', hi, h => by
+    simp only [reduceInto, Res.ok.injEq] at h; subst h; exact hi.push_occ rfl
+  | .comp k inner, acc, acc', hi, h => by
+    rw [reduceInto] at h
+    split at h <;> simp only [Res.ok.injEq, reduceCtorEq] at h
+    subst h; exact hi.push_occ rfl
+  | .bloc items, acc, acc', hi, h => by rw [reduceInto] at h; exact reduceIntoL_inv items acc acc' hi h
+theorem reduceIntoL_inv : ∀ (xs : List PV) (acc acc' : List PV), AccInv acc → reduceIntoL xs acc = .ok acc' → AccInv acc'
+  | [], acc, acc', hi, h => by simp only [reduceIntoL, Res.ok.injEq] at h; subst h; exact hi
+  | x :: xs, acc, acc', hi, h => by
+    rw [reduceIntoL] at h
+    split at h
+    · rename_i acc1 h1
+      exact reduceIntoL_inv xs acc1 acc' (reduceInto_inv x acc acc1 hi h1) h
+    · cases h
+    · cases h
+end
+
+end ReduceNormal
+
 end I18nVerif.Keys
